@@ -240,7 +240,7 @@ def minimise(W, prop, cfg, ops, viol, budget=500, cold_pass=False):
         op = cur[pos]
         if op["op"] == "decode":
             cur = _shrink_seq(cur, pos, "x", _SYM.findall(op["x"]), fails)
-        elif op["op"] == "encode" and cls not in ("strict_iff_molgen", "nonstrict_raises_molgen"):
+        elif op["op"] == "encode" and cls not in ("strict_iff_molgen", "nonstrict_raises_molgen", "respelt_eq_original"):
             cur = _shrink_seq(cur, pos, "s", list(op["s"]), fails, drop="gt")
         elif op["op"] == "set_table":
             cur = _shrink_table(cur, pos, fails)
